@@ -1,0 +1,36 @@
+//go:build verif
+
+package forward
+
+// Machine-checked contracts for /verif (govc). Comment-only, compiled only
+// with -tags verif; changes no behaviour.
+//
+// C20: the endpoint dials only targets[key] for the requested key, where
+// targets is built once from the configured endpoints and never written again;
+// an unknown key is answered with ErrForwardNotFound and starts nothing.
+
+//@ mapwritesonly[C20] Handler.targets: -
+
+//@ func NewHandler
+//@ prop C20
+//@ check bounds
+//@ modifies *
+//@ loop 0 invariant -1 <= rangeindex && rangeindex < len(cfg.Endpoints)
+//@ loop 0 invariant forall k string: has(targets, k) ==> exists i in 0..rangeindex+1: cfg.Endpoints[i].Key == k && cfg.Endpoints[i].Target == targets[k]
+//@ loop 0 invariant forall i in 0..len(cfg.Endpoints): cfg.Endpoints[i] == old(cfg.Endpoints[i])
+//@ ensures forall k string: has(result.targets, k) ==> exists i in 0..len(cfg.Endpoints): old(cfg.Endpoints[i].Key) == k && old(cfg.Endpoints[i].Target) == result.targets[k]
+
+//@ func (*Handler).HandleStreamOpen
+//@ prop C20
+//@ modifies *
+//@ at call handleStreamOpenAsync assert has(h.targets, key) && $5 == key && $6 == h.targets[key]
+//@ at call sendOpenErr assert $4 == protocol.ErrConnectionLimit || (!has(h.targets, key) && $4 == protocol.ErrForwardNotFound)
+//@ ensures h.running && !has(h.targets, key) ==> err != nil
+
+//@ func (*Handler).handleStreamOpenAsync
+//@ prop C20
+//@ modifies *
+//@ at call DialContext assert $2 == "tcp" && $3 == old(target)
+
+//@ census[C20] DialContext in (*Handler).handleStreamOpenAsync
+//@ census[C20] (*Handler).handleStreamOpenAsync in (*Handler).HandleStreamOpen
